@@ -131,6 +131,17 @@ fn sampled(rng: &mut Rng) -> Scenario {
             }
         }
     });
+    if family >= 1 && rng.bool(0.15) && sc.method != Meth::RK4 {
+        // absolute scales: the code base contains absolute constants (1e-6 default first step,
+        // 1e-12 matching slack, ...); put the interval and max_step near them
+        let d = sc.dir();
+        let span = rng.logu(1e-8, 1e-4);
+        sc.xend = sc.x0 + d * span;
+        sc.max_step = Some(span / rng.int(3, 60) as f64);
+        sc.first_step = if rng.bool(0.3) { Some(sc.max_step.unwrap() * rng.logu(1e-2, 0.9)) } else { None };
+        sc.max_steps = None;
+        return sc;
+    }
     if family == 0 || (family == 2 && rng.bool(0.3)) {
         // budget twin; observers make the prefix comparison richer
         let nsteps = p.grid.len();
@@ -323,7 +334,7 @@ impl C11 {
         let mut hs = sc.clone();
         hs.max_steps = None;
         hs.t_eval = None;
-        let o = run_high(&hs, false);
+        let o = run_high(&hs, true);
         cov.note_high(&o);
         if o.verdict != Verdict::Returned {
             cov.blocked += 1;
@@ -333,6 +344,55 @@ impl C11 {
         cov.nontrivial.insert(o.fp);
         if s.t.len() < 2 {
             return;
+        }
+        // first trial step, seen on the RHS seam: the stages of the first attempt reach exactly
+        // x0 + first_step (explicit methods: their last stage; Radau: third collocation point; BDF:
+        // the first corrector evaluation). Crossing 1 is f(x0, y0); Jacobian-internal calls excluded.
+        if let Some(h0) = sc.first_step {
+            let h0 = h0.abs();
+            let cap = sc.max_step.map(|m| m.abs()).unwrap_or(f64::INFINITY).min(sc.span());
+            let k = match sc.method {
+                Meth::RK4 => 3,
+                Meth::RK23 => 3,
+                Meth::DOPRI5 => 6,
+                Meth::DOP853 => 11,
+                Meth::RADAU => 3,
+                Meth::BDF => 1,
+            };
+            let calls: Vec<&crate::env::OdeRec> = o.st.odes.iter().filter(|r| !r.in_jac).collect();
+            if h0 <= 0.95 * cap && calls.len() > k && sc.faults.is_empty() {
+                let reach = calls[1..=k].iter().fold(0.0f64, |m, r| m.max((r.t - sc.x0).abs()));
+                let dt0 = delta_t(sc, 0.0);
+                if (reach - h0).abs() > dt0 + 4.0 * EPS * h0 {
+                    v.push(viol(P, "first_trial_step_high", format!("first_step={:e} but the stages of the first trial step reach {:e} from x0", h0, reach)));
+                }
+                cov.bump("bounds.first_trial_step_high_checked");
+            }
+        }
+        // max_step also bounds the automatically chosen first step: every RHS abscissa before the
+        // first accepted step stays within 1.01*max_step of x0 (Jacobian-internal calls excluded)
+        if let (Some(ms), true) = (sc.max_step, sc.events.is_empty()) {
+            let ms = ms.abs();
+            // accepted steps are not visible on the RHS seam; bound the first attempt only
+            let calls: Vec<&crate::env::OdeRec> = o.st.odes.iter().filter(|r| !r.in_jac).collect();
+            // crossings of the first attempt after f(x0,y0): the hinit probe (when the first step
+            // is chosen automatically by RK23/DOPRI5/DOP853/BDF) plus the stages of one attempt
+            let stages = match sc.method {
+                Meth::RK4 => 3,
+                Meth::RK23 => 3,
+                Meth::DOPRI5 => 6,
+                Meth::DOP853 => 11,
+                Meth::RADAU => 3,
+                Meth::BDF => 1,
+            };
+            let probe = if sc.first_step.is_none() && !matches!(sc.method, Meth::RK4 | Meth::RADAU) { 1 } else { 0 };
+            let kmax = stages + probe;
+            if calls.len() > kmax {
+                let reach = calls[1..=kmax].iter().fold(0.0f64, |m, r| m.max((r.t - sc.x0).abs()));
+                if reach > 1.01 * ms * (1.0 + 4.0 * EPS) + delta_t(sc, 0.0) {
+                    v.push(viol(P, "max_step_first_attempt_high", format!("max_step={:e} but the first attempt evaluates the RHS {:e} away from x0", ms, reach)));
+                }
+            }
         }
         let dt = delta_t(sc, 0.0) * if sc.method == Meth::RK4 { s.t.len() as f64 } else { 1.0 };
         if let (Some(ms), None) = (sc.max_step, sc.first_step) {
@@ -344,6 +404,23 @@ impl C11 {
                 if d > lim * (1.0 + 4.0 * EPS) + dt {
                     v.push(viol(P, "max_step_exceeded_high", format!("reported interval {i} has length {:e} > max_step={:e}", d, ms)));
                     break;
+                }
+            }
+        }
+        if let (Meth::RK4, Some(h0)) = (sc.method, sc.first_step) {
+            // RK4: first_step is the fixed step: every reported interval but the closing one
+            let h0 = h0.abs();
+            if h0 <= 0.95 * sc.span() && hs.events.iter().all(|e| e.terminal.is_none()) {
+                let last = s.t.len() - 2;
+                for i in 0..s.t.len() - 1 {
+                    if i == last && s.status == Status::Success {
+                        continue;
+                    }
+                    let d = (s.t[i + 1] - s.t[i]).abs();
+                    if (d - h0).abs() > dt + 4.0 * EPS * h0 {
+                        v.push(viol(P, "rk4_fixed_step_high", format!("RK4 with first_step={:e}: reported interval {i} has length {:e}", h0, d)));
+                        break;
+                    }
                 }
             }
         }
